@@ -118,9 +118,9 @@ def unit_define(eng, what, local, is_extern, extern_all):
         want_exports = []
         if is_extern:
             want_exports.append(I["tok"])
-        if extern_all and not (what == "label" and local):
-            want_exports.append(I["ea"])
-        eng.prove("exported-iff-marked-:: / == or-under-.extern all", [e[0] for e in I["exported"]] == want_exports and all(e[1] is nm and e[2] is I["state"] for e in I["exported"]))
+        elif extern_all and not (what == "label" and local):
+            want_exports.append(I["ea"])          # exported once: by its own marker, or else by the '.extern all' in force
+        eng.prove("exported-exactly-once-iff-marked-:: / == or-under-.extern all", [e[0] for e in I["exported"]] == want_exports and all(e[1] is nm and e[2] is I["state"] for e in I["exported"]))
         eng.prove("ordinary-symbols-are-recorded-for-a-later-.extern all", I["state"]["internal_symbols_list"] == ([] if (what == "label" and local) else [nm]))
     r = verify(eng, name, run, post, func="compiler.Compiler.compile_%s" % what)
     for o in r["obligations"]:
@@ -318,7 +318,8 @@ def unit_extern(eng, shape):
                 want += [(t, p) for p in I["prior"]]
         got = [(c[0], c[1]) for c in I["calls"]]
         eng.prove("exports-each-named-symbol-and-for-'all'-every-ordinary-symbol-defined-so-far-in-order", len(got) == len(want) and all(g[0] is w[0] and g[1] is w[1] for g, w in zip(got, want)))
-        eng.prove("'.extern all'-also-arms-export-of-later-definitions", bool(I["state"]["extern_all"]) == ("all" in shape))
+        all_tok = [t for k, t in zip(shape, I["toks"]) if k == "all"]
+        eng.prove("'.extern all'-arms-export-of-later-definitions-with-its-own-token-as-the-location-to-report", (I["state"]["extern_all"] is all_tok[-1]) if all_tok else not I["state"]["extern_all"])
         eng.prove("non-symbol-operand-is-a-meta-type-mismatch-error", [e[1] for e in errors(eng)] == ["meta-type-mismatch"] * shape.count("bad"))
         eng.prove("emits-nothing", slen(zbytes(o[1])) == 0)
     return verify(eng, name, run, post, func="metacommands.extern")
